@@ -350,11 +350,20 @@ func (s *Server) serveOne(ctx context.Context, r io.Reader, w io.Writer, shmConn
 
 // serveUnary dispatches a unary method call.
 
+// headerEncodeError reports that a stream header could not be serialized.
+// writeStreamHeader returns it only for failures that happen before the first
+// byte is written to w, which is what lets a pipe session answer the call with
+// an error response instead of abandoning the connection mid-frame.
+type headerEncodeError struct{ err error }
+
+func (e *headerEncodeError) Error() string { return e.err.Error() }
+func (e *headerEncodeError) Unwrap() error { return e.err }
+
 func (s *Server) writeStreamHeader(w io.Writer, header ArrowSerializable, logs []LogMessage) error {
 	// Serialize header to a 1-row batch using IPC bytes
 	data, err := serializeArrowSerializable(header)
 	if err != nil {
-		return err
+		return &headerEncodeError{err: err}
 	}
 
 	// Read the batch back to get the header schema and batch
